@@ -27,6 +27,9 @@ func (c *icall) now() string {
 	} else {
 		s.Now0 = v
 	}
+	if s.ClockMax != "" && s.Now0 != v {
+		s.addPC("(<= " + v + " (+ " + s.Now0 + " " + s.ClockMax + "))")
+	}
 	// the real clock: 2001 .. 2043
 	s.addPC("(and (<= 1000000000000000000 " + v + ") (<= " + v + " 2305843009213693952))")
 	s.Clock = v
